@@ -210,7 +210,7 @@ Fixpoint quoted_close (q prev : Z) (r : text) : bool :=
 Definition quoted_ok (q : Z) (body : text) : bool :=
   match body with c0 :: r => if re_dot c0 then quoted_close q c0 r else false | [] => false end.
 Definition unit_esc (s : text) : option text :=                        (* \\. *)
-  match s with 92 :: c :: r => if re_dot c then Some r else None | _ => None end.
+  match s with c0 :: c :: r => if (c0 =? 92) && re_dot c then Some r else None | _ => None end.
 Definition unit1_plain (s : text) : option text :=                     (* none of SQ DQ , space *)
   match s with c :: r => if mem c [39; 34; 44; 32] then None else Some r | [] => None end.
 Definition unit2_plain (s : text) : option text :=                     (* none of SQ DQ , *)
